@@ -58,6 +58,17 @@ NewMerge(M, cons, x) ==
         ELSE {M}
     ELSE {M}
 
+\* the same for replace, where the statement's wording is what the crate does: whatever becomes adjacent is merged into
+\* the EARLIER node (the replacing text node survives a text node behind it; with text on both sides one node is left)
+NewMergeEarlier(M, cons, x) ==
+    IF cons /\ M[x].k = "text" THEN
+        LET a == PrevNorm(M, x)  b == NextNorm(M, x) IN
+        IF IsText(M, a) THEN
+            IF IsText(M, b) THEN {MergeInto(MergeInto(M, a, x), a, b)} ELSE {MergeInto(M, a, x)}
+        ELSE IF IsText(M, b) THEN {MergeInto(M, x, b)}
+        ELSE {M}
+    ELSE {M}
+
 MovePre(N, q, x) ==
     /\ q # 0 /\ N[q].k \in {"elem", "doc"}
     /\ IsNormal(N, x) /\ N[x].k # "doc"
@@ -94,7 +105,7 @@ OpReplace(N, cons, o, x) ==
     ELSE LET D == DetachRaw(N, x)
              L0 == InsertNormalAt(D, q, x, Pos(NormKids(D, q), o))
              L == FreeSet(L0, Subtree(D, o))
-             done == OkSet(NewMerge(OldMerge(N, L, cons, x), cons, x))
+             done == OkSet(NewMergeEarlier(OldMerge(N, L, cons, x), cons, x))
          IN IF x \in Subtree(N, o)
             THEN done \cup Unch(N)   \* replacement taken from inside the replaced subtree: refuse or extract
             ELSE done
